@@ -741,6 +741,10 @@ ExitStatus Builder::Build(string* err) {
         }
 
         if (!StartEdge(edge, err)) {
+          // The edge never reached the command runner, so Cleanup() does not
+          // know about it: give its job slot back here.
+          if (jobserver_.get())
+            jobserver_->Release(std::move(edge->job_slot_));
           Cleanup();
           status_->BuildFinished();
           return ExitFailure;
@@ -784,6 +788,12 @@ ExitStatus Builder::Build(string* err) {
       }
 
       if (result.interrupted() || result.exit_status() == ExitInterrupted) {
+        // A command that itself ended with the interrupt status is no longer
+        // known to the command runner: give its job slot back here.
+        if (result.command_completed() && jobserver_.get()) {
+          jobserver_->Release(
+              std::move(result.GetCommandCompleted().edge->job_slot_));
+        }
         Cleanup();
         status_->BuildFinished();
         *err = "interrupted by user";
@@ -795,6 +805,10 @@ ExitStatus Builder::Build(string* err) {
         bool command_finished = FinishCommand(cc, err);
         SetFailureCode(result.exit_status());
         if (!command_finished) {
+          // FinishCommand() may have bailed out before Plan::EdgeFinished()
+          // released the job slot (a no-op if it already did).
+          if (jobserver_.get())
+            jobserver_->Release(std::move(cc.edge->job_slot_));
           Cleanup();
           status_->BuildFinished();
           if (result.success()) {
